@@ -11,7 +11,7 @@ breezy.
 Ghosts: ``ghosts`` is a set of node numbers that are *not* committed; children
 keep referring to them.
 """
-from mc import gen
+from mc import gen, par
 from mc import world as mw
 from mc.evidence import HarnessError
 from mc.vfs import new_store
@@ -292,3 +292,37 @@ def quiet_trace():
     ~10^5 debug lines per second dominates otherwise.  Harness-side switch only."""
     from breezy import trace
     trace._trace_handler = None
+
+
+class Acc(par.Acc):
+    """par.Acc that keeps, per signature, the smallest violation (fewest revisions, then shortest
+    detail) instead of the first 200 violations of whatever signature: no signature can be crowded
+    out by a frequent one, whatever the sharding."""
+
+    def __init__(self):
+        super().__init__()
+        self._best = {}
+
+    @staticmethod
+    def size(detail):
+        return (len(detail.get("dag", ())), len(detail.get("ghosts", ())), detail.get("start") is not None,
+                len(repr(detail)), repr(detail))
+
+    def violation(self, sig, detail):
+        k = self.size(detail)
+        cur = self._best.get(sig)
+        if cur is None or k < cur[0]:
+            self._best[sig] = (k, detail)
+            self.violations = [(s_, d) for s_, (_, d) in sorted(self._best.items())]
+        self.count("violations_raw")
+        self.count("sig:" + sig)
+
+
+def smallest(violations):
+    """One violation per signature (the smallest) out of merged lists."""
+    best = {}
+    for sig, d in violations:
+        k = Acc.size(d)
+        if sig not in best or k < best[sig][0]:
+            best[sig] = (k, d)
+    return [(sig, best[sig][1]) for sig in sorted(best)]
